@@ -391,6 +391,7 @@ class Renderer:
         m, lay = self.m, self.lay
         rnd = lay.rnd
         files = []   # (path, [Line])
+        multi_doc_files = []   # (path, namespace, doc index) of files carrying one of several namespace docs
         self.inline_map = {}
         self.empty_body = set()
         for ns in m.namespaces:
@@ -414,12 +415,23 @@ class Renderer:
             buckets = [[] for _ in range(nfiles)]
             for it in items:
                 buckets[rnd.randrange(nfiles) if nfiles > 1 else 0].append(it)
-            imp_file = [rnd.randrange(nfiles) if nfiles > 1 else 0 for _ in ns.imports]
-            doc_file = rnd.randrange(nfiles) if nfiles > 1 else 0
+            # a namespace documented in several files: the docs concatenate in file order (one doc per file)
+            ndocs = len(ns.docs)
+            if ndocs > 1 and nfiles < ndocs:
+                buckets += [[] for _ in range(ndocs - nfiles)]
+                nfiles = ndocs
+            rr = rnd or random.Random(0)
+            imp_file = [rr.randrange(nfiles) if nfiles > 1 else 0 for _ in ns.imports]
+            if ndocs > 1:
+                doc_files = sorted(rr.sample(range(nfiles), ndocs)) if not lay.reference else list(range(ndocs))
+            else:
+                doc_files = [rr.randrange(nfiles) if nfiles > 1 else 0]
             for fi in range(nfiles):
                 L = [Line(0, 'namespace ' + ns.name)]
-                if ns.docs and fi == doc_file:
-                    L.extend(self.doc_lines(ns.docs[0], 1))
+                if ns.docs and fi in doc_files:
+                    L.extend(self.doc_lines(ns.docs[doc_files.index(fi)], 1))
+                    if ndocs > 1:
+                        multi_doc_files.append(('%s_%d.stone' % (ns.name, fi), ns.name, doc_files.index(fi)))
                 for imp, f in zip(ns.imports, imp_file):
                     if f == fi:
                         L.append(Line(0, 'import ' + imp))
@@ -446,6 +458,22 @@ class Renderer:
         if lay.on('perm_files', 0.8):
             rnd.shuffle(files)
             lay.trace.append('perm_files')
+        # documented: namespace docs concatenate in file order.  Layouts keep the relative order of the files
+        # that carry the docs of one namespace (so that every layout means the same), unless the layout is
+        # asked to permute them - then the order actually rendered is recorded for the expectation
+        lay.doc_order = {}
+        for nsname in {x[1] for x in multi_doc_files}:
+            paths = {x[0]: x[2] for x in multi_doc_files if x[1] == nsname}
+            pos = [i for i, f in enumerate(files) if f[0] in paths]
+            mine = [files[i] for i in pos]
+            if lay.o.get('permute_doc_files') and not lay.reference:
+                rnd.shuffle(mine)
+                lay.trace.append('perm_doc_files')
+            else:
+                mine.sort(key=lambda f: paths[f[0]])
+            for i, f in zip(pos, mine):
+                files[i] = f
+            lay.doc_order[nsname] = [paths[f[0]] for f in mine]
         out = []
         for path, L in files:
             if lay.reference or not lay.o.get('decorate'):
